@@ -12,6 +12,7 @@ import (
 	"bytes"
 	"fmt"
 	"math/rand/v2"
+	"regexp"
 	"runtime"
 	"sort"
 	"strconv"
@@ -52,11 +53,12 @@ type Ctl struct {
 	self   int64                      // goroutine id of the driver
 	Jitter int                        // stress: 1/Jitter of the gates yield the processor
 	old    map[int64]bool             // goroutines that existed before this world (left over from earlier cases)
+	names  map[int64]string           // every goroutine that was ever named (drivers, background), also after it ended
 }
 
 func NewCtl(t int, out *ndj.Writer, det bool) *Ctl {
 	c := &Ctl{out: out, T: t, Det: det, byGoid: map[int64]*Proc{}, Procs: map[string]*Proc{}, occ: map[string]int{},
-		parked: map[string][]chan struct{}{}, at: map[string]string{}, self: goid(), Jitter: 3, old: map[int64]bool{}}
+		parked: map[string][]chan struct{}{}, at: map[string]string{}, self: goid(), Jitter: 3, old: map[int64]bool{}, names: map[int64]string{}}
 	for _, g := range dumpAll() {
 		c.old[g.ID] = true
 	}
@@ -93,9 +95,19 @@ func (c *Ctl) emitLocked(ev string, f Ev) {
 	c.out.Write(f)
 }
 
+var createdBy = regexp.MustCompile(`created by .* in goroutine (\d+)`)
+
 // bgName classifies a goroutine of the real code that the driver did not start.
-func bgName(stack string) string {
+// The goroutine AddWaitForCsvTx starts for its callback is named after its creator.
+func (c *Ctl) bgName(stack string) string {
 	switch {
+	case strings.Contains(stack, "BlockchainRpcTxWatcher).AddWaitForCsvTx.func"):
+		parent := ""
+		if m := createdBy.FindStringSubmatch(stack); m != nil {
+			id, _ := strconv.ParseInt(m[1], 10, 64)
+			parent = c.names[id]
+		}
+		return "acb" + parent
 	case strings.Contains(stack, "BlockchainRpcTxWatcher).observationLoop"):
 		return "obs"
 	case strings.Contains(stack, "electrumTxWatcher).StartWatchingTxs"):
@@ -112,17 +124,27 @@ func bgName(stack string) string {
 	return "bg"
 }
 
+func (c *Ctl) bgNameL(stack string) string {
+	c.mu.Lock()
+	defer c.mu.Unlock()
+	return c.bgName(stack)
+}
+
 func (c *Ctl) whoami() string {
 	id := goid()
 	c.mu.Lock()
-	p := c.byGoid[id]
-	c.mu.Unlock()
-	if p != nil {
+	defer c.mu.Unlock()
+	if p := c.byGoid[id]; p != nil {
 		return p.Name
 	}
-	b := make([]byte, 8192)
+	if n, ok := c.names[id]; ok {
+		return n
+	}
+	b := make([]byte, 16384)
 	b = b[:runtime.Stack(b, false)]
-	return bgName(string(b))
+	n := c.bgName(string(b))
+	c.names[id] = n
+	return n
 }
 
 // Gate is called by every simulated service BEFORE it answers.
@@ -203,6 +225,7 @@ func (c *Ctl) Go(pn, entry string, f func() string) *Proc {
 		c.mu.Lock()
 		p.goid = id
 		c.byGoid[id] = p
+		c.names[id] = pn
 		p.started = true
 		c.emitLocked("start", Ev{"p": pn, "e": entry})
 		c.mu.Unlock()
